@@ -235,6 +235,17 @@ func runPlan(c *core.Ctx, p *plan) error {
 		c.Set("tlc_behaviours_reproduced", rp.Matched)
 		c.Set("tlc_replay_steps", rp.Steps)
 	}
+	var ids []string
+	for id, ks := range runKeys {
+		if len(ks) >= 8 {
+			ids = append(ids, id)
+		}
+	}
+	sort.Strings(ids)
+	for i := 0; i < len(ids) && i < 2; i++ {
+		id := ids[(i*len(ids))/2]
+		c.Sample(map[string]interface{}{"configuration": runCfg[id].ID(), "recorded_schedule_of_real_code": runKeys[id], "format": "transition|goroutine|partner-or-child|select-case"})
+	}
 	for i := 0; i < len(rs) && i < 4; i++ {
 		r := rs[(i*7+len(rs)/2)%len(rs)]
 		c.Sample(map[string]interface{}{"configuration": r.ID, "states_of_real_code": r.States, "schedules": r.Runs, "complete": r.Complete, "outcomes": r.Outcomes, "first_delivery": r.FirstGot})
